@@ -49,6 +49,7 @@ type Opts struct {
 
 // Split turns the results of one ModifyResponse into an outcome.
 func Split(r *spb.ModifyResponse) (out model.Outcome, fib []uint64, other int) {
+	out.Unordered = true
 	for _, x := range r.GetResult() {
 		switch x.GetStatus() {
 		case spb.AFTResult_RIB_PROGRAMMED:
